@@ -307,7 +307,7 @@ package gpbft
 
 // One-shot validation: relevance first, then the rules over the complete message; verdicts pass through unchanged.
 //@ func (*cachingValidator).ValidateMessage
-//@   property C05 C13
+//@   property C05 C13 C01 C02 C03
 //@   modifies auto
 //@   maypanic
 //@   at validateMessageWithVoteValueKey 1
@@ -324,7 +324,7 @@ package gpbft
 
 // Stage one of two-stage validation: the same rules, with the announced key standing in for the chain.
 //@ func (*cachingValidator).PartiallyValidateMessage
-//@   property C05 C13
+//@   property C05 C13 C01 C02 C03
 //@   modifies auto
 //@   maypanic
 //@   at validateMessageWithVoteValueKey 1
@@ -1091,3 +1091,52 @@ package gpbft
 //@     invariant forall(j, 1, iter, c.TipSets[j-1].Epoch < c.TipSets[j].Epoch, trigger(c.TipSets[j]))
 //@   at Validate 1
 //@     before[every_tipset_is_validated] arg(0) == ts
+
+// ---- C05 / C13: what a validation cache key is made of ----
+// The key is the CBOR encoding of the message followed by every additional field, in order, in one buffer.
+//@ func (*cachingValidator).getCacheKey
+//@   property C05 C13 C01 C02 C03
+//@   modifies auto
+//@   maypanic
+//@   at MarshalCBOR 1
+//@     before[the_message_itself_is_encoded_first] recv() == msg
+//@   at Write 1
+//@     before[each_additional_field_goes_into_the_same_buffer_after_the_encoding] arg(1) == field && res(MarshalCBOR, 1) == nil && arg(0) == argOf(MarshalCBOR, 1, 0)
+//@   at return 2
+//@     before[the_key_is_that_buffers_content] arg(1) == nil && arg(0) == res(Bytes, 1) && argOf(Bytes, 1, 0) == argOf(MarshalCBOR, 1, 0) && dominatedBy(MarshalCBOR, 1)
+
+// ---- C08 / C05 / C07: reading and building a power table ----
+//@ func (*PowerTable).Get
+//@   property C08 C05 C07
+//@   requires tblOK(p) && lookupOK(p)
+//@   modifies nothing
+//@   ensures[a_member_yields_its_scaled_power_and_key] has(p.Lookup, id) ==> result0 == p.ScaledPower[p.Lookup[id]] && result1 == p.Entries[p.Lookup[id]].PubKey
+//@   ensures[a_stranger_yields_zero_power_and_no_key] !has(p.Lookup, id) ==> result0 == 0 && len(result1) == 0
+
+//@ func (*PowerTable).Has
+//@   property C08 C05 C07
+//@   modifies nothing
+//@   ensures[membership_is_the_lookup_map] result == has(p.Lookup, id)
+
+// Add accepts only entries with a key, positive power and a fresh id; each is appended with its index recorded and its
+// power added to the total; the table is then sorted into the canonical order and rescaled (rescale's own contract, C08,
+// is entered with its precondition assumed here: the sort keeps Lookup consistent through PowerTable.Swap).
+//@ func (*PowerTable).Add
+//@   property C08
+//@   modifies auto
+//@   maypanic
+//@   opaque rescale
+//@   at return 1
+//@     before[an_entry_without_a_key_is_refused] arg(0) != nil && len(entry.PubKey) == 0
+//@   at return 2
+//@     before[a_duplicate_id_is_refused] arg(0) != nil && res(Has, 1) && argOf(Has, 1, 1) == entry.ID
+//@   at return 3
+//@     before[non_positive_power_is_refused] arg(0) != nil && entry.Power <= 0
+//@   at loopback 1
+//@     before[an_accepted_entry_is_appended_indexed_and_counted] len(entry.PubKey) > 0 && entry.Power > 0 && !res(Has, 1)
+//@          && p.Total == prev(p.Total) + entry.Power && len(p.Entries) == len(prev(p.Entries)) + 1 && p.Entries[len(p.Entries)-1] == entry
+//@          && len(p.ScaledPower) == len(prev(p.ScaledPower)) + 1 && has(p.Lookup, entry.ID) && p.Lookup[entry.ID] == len(p.Entries) - 1
+//@   at rescale 1
+//@     before[scaled_after_sorting_into_canonical_order] dominatedBy(Sort, 1) && arg(0) == p
+//@   at return 4
+//@     before[the_result_is_that_of_rescaling] arg(0) == res(rescale, 1)
